@@ -455,7 +455,7 @@ func init() { registerReplay("C12", propC12) }
 
 const c12Rule = "rapid-generated: 1..3 services (1..3 unary + 1..3 streaming methods, per-method counters) on inproc, httpgrpc.Server and HandleServices x absolute base path of 0..3 segments over [A-Za-z0-9._~+:@!-] and non-ASCII, with/without trailing slash (same on both sides) x called name = registered, or a mutation (no leading slash, no slash, empty, missing part, extra segment, prefix, suffix, other service, kind mismatch, case change, names path.Clean rewrites, characters needing escaping, random); " +
 	"oracle: registered name => exactly that counter +1 and success; any other name => no counter moves, non-OK status error (Unimplemented in-process / NotFound over HTTP for well-formed unknown names), never a panic; a registered name without its leading slash may run that handler (tolerated by both transports); " +
-	"also generated since the seeded rounds: up to 3 preceding calls on the same channel (any name, any kind), registration of the last service after those calls, per-RPC credentials on the judged call; " +
+	"also generated since the seeded rounds: up to 3 preceding calls on the same channel (any name, any kind), registration of the last service after those calls, per-RPC credentials on the judged call, descriptions decorated by grpchan.InterceptServer, the per-method HTTP server form; " +
 	"non-trivial = unregistered/malformed name or base path other than /; distinct by case hash"
 
 // FuzzMethodName: coverage-guided search over method-name strings (any bytes) against a fixed set of
